@@ -1,7 +1,7 @@
 (* C20 — the drawable edge set behaves as a set under any add/remove history.
    Property theorems only; each is closed by [exact] of a lemma of Proofs/DrawSetP.v. *)
 From Coq Require Import List ZArith Bool Arith Permutation.
-From GV Require Import Lib.Tree Model.DrawSet Proofs.DrawSetP.
+From GV Require Import Lib.Tree Model.DrawSet Proofs.DrawSetP Proofs.DrawSetReP.
 Import ListNotations.
 
 (* For EVERY finite history of add / remove / draw / contains / len / iterate operations
@@ -62,6 +62,19 @@ Print Assumptions C20_add_present.
 Theorem C20_remove_absent : forall s e, ds_contains s e = false -> step s (ORemove e) = (s, RErr).
 Proof. exact remove_absent_state. Qed.
 Print Assumptions C20_remove_absent.
+
+(* removal of a present element followed by its re-insertion, from ANY state representing a plain
+   set: the removal succeeds, the element is gone (len - 1), and after re-insertion the structure
+   represents exactly the same members again with the same len *)
+Theorem C20_remove_then_reinsert :
+  forall s l e, R s l -> In e l ->
+    exists s1, ds_remove s e = Some s1 /\
+      R s1 (a_remove l e) /\ ds_contains s1 e = false /\ ds_len s1 + 1 = ds_len s /\
+      R (ds_add s1 e) (a_add (a_remove l e) e) /\
+      (forall x, In x (edges (ds_add s1 e)) <-> In x l) /\
+      ds_len (ds_add s1 e) = ds_len s.
+Proof. exact remove_then_add. Qed.
+Print Assumptions C20_remove_then_reinsert.
 
 (* non-vacuity: a concrete history exercising removal of the last-inserted element,
    removal of an inner element, removal down to empty and re-insertion *)
